@@ -114,6 +114,57 @@ match_harness!(match_string, 2, false);
 match_harness!(match_array, 3, false);
 match_harness!(match_void_folded, 4, true);
 
+// smaller matches (three / two arms): the four-arm harnesses above cost 200-600 s each, these are the
+// ones the quick tier runs
+/// arms  n: int => 20 ; f: int|float => 30 ; => 40   - the FIRST arm whose type the runtime type matches
+fn match_types(kind: u8) {
+    levels(1 << K_MATCH, V, 0, 0);
+    crate::variable::verif_valgate::allow_vals(1 << crate::variable::verif_valgate::V_STRING);
+    crate::verif_model::set_order(0);
+    let x: i64 = kani::any();
+    let f: f64 = kani::any();
+    let scrutinee = match kind {
+        0 => Variable::Int(x),
+        1 => Variable::Float(f),
+        _ => Variable::String("a".into()),
+    };
+    let arms: Vec<MatchArm> = crate::vv![
+        MatchArm::Type { ident: "n".into(), var_type: Type::Int, instruction: iws(konst(20)) },
+        MatchArm::Type { ident: "f".into(), var_type: Type::Int | Type::Float, instruction: iws(konst(30)) },
+        MatchArm::Other(iws(konst(40)))
+    ];
+    let tree: Instruction = Match { expression: iws(Instruction::Variable(scrutinee)), arms: arms.into_boxed_slice() }.into();
+    let r = run(&tree);
+    let expect = match kind { 0 => 20, 1 => 30, _ => 40 };
+    assert!(is_int(&r, expect));
+}
+/// arms  (7), (x2) => 10 ; n: int => 20   - a value arm is taken exactly when a candidate equals the scrutinee
+fn match_value_then_type() {
+    levels(1 << K_MATCH, V, 0, 0);
+    crate::variable::verif_valgate::allow_vals(0);
+    crate::verif_model::set_order(0);
+    let (x, x2): (i64, i64) = (kani::any(), kani::any());
+    let arms: Vec<MatchArm> = crate::vv![
+        MatchArm::Value(Arc::from(crate::vv![iws(konst(7)), iws(konst(x2))]), iws(konst(10))),
+        MatchArm::Type { ident: "n".into(), var_type: Type::Int, instruction: iws(konst(20)) }
+    ];
+    let tree: Instruction = Match { expression: iws(Instruction::Variable(Variable::Int(x))), arms: arms.into_boxed_slice() }.into();
+    let r = run(&tree);
+    assert!(is_int(&r, if x == 7 || x == x2 { 10 } else { 20 }));
+}
+macro_rules! small_match {
+    ($name:ident, $body:expr) => {
+        #[kani::proof]
+        #[kani::unwind(5)]
+        #[kani::stub(alloc::fmt::format, crate::verif_common::stub_format)]
+        pub fn $name() { $body; kani::cover!(true); }
+    };
+}
+small_match!(match_types_int, match_types(0));
+small_match!(match_types_float, match_types(1));
+small_match!(match_types_string, match_types(2));
+small_match!(match_value_arm_then_type_arm, match_value_then_type());
+
 /// a match accepted as exhaustive for a static type always has an arm for a value of that type:
 /// arms  a: [int] => 1 ; s: string|float => 2   against scrutinee types from the universe
 fn exhaustive(t: Ty) {
